@@ -36,14 +36,15 @@ type XDec struct {
 
 // XCase is the generated object.
 type XCase struct {
-	Cap      int     `json:"cap"`
-	NKeys    int     `json:"nkeys"`
-	Programs [][]XOp `json:"programs"`
-	Decs     []XDec  `json:"decs,omitempty"`    // controlled mode
-	FailPct  int     `json:"failpct,omitempty"` // free-running mode: percentage of creations that fail
-	Yields   int     `json:"yields,omitempty"`  // free-running mode: Gosched calls inside the create function
-	SlowDelete bool  `json:"slow_delete,omitempty"` // free-running mode: the delete callback takes tens of microseconds
-	History  []XRec  `json:"history,omitempty"` // filled in on failure
+	Cap        int     `json:"cap"`
+	NKeys      int     `json:"nkeys"`
+	Programs   [][]XOp `json:"programs"`
+	Decs       []XDec  `json:"decs,omitempty"`        // controlled mode
+	FailPct    int     `json:"failpct,omitempty"`     // free-running mode: percentage of creations that fail
+	Yields     int     `json:"yields,omitempty"`      // free-running mode: Gosched calls inside the create function
+	NoCB       bool    `json:"no_cb,omitempty"`       // the cache is built without a delete callback: judged on returned values, creations and Clear counts only
+	SlowDelete bool    `json:"slow_delete,omitempty"` // free-running mode: the delete callback takes tens of microseconds
+	History    []XRec  `json:"history,omitempty"`     // filled in on failure
 }
 
 type kv struct {
@@ -116,7 +117,7 @@ func (x *xrun) create(k string) (int, error) {
 	// a creation for k is only ever started when k is not resident, and a value leaves the cache only through its delete
 	// callback: so no value created for k earlier may still be waiting for its callback now
 	for v, kk := range x.created {
-		if kk == k && x.deleted[v] == 0 {
+		if kk == k && x.deleted[v] == 0 && !x.c.NoCB {
 			x.setViol("lru:creation-while-old-value-alive", "a creation for key %q was started while value #%d of the same key had not yet been passed to the delete callback", k, v)
 		}
 	}
@@ -239,7 +240,11 @@ func newXrun(c XCase, free bool) (*xrun, error) {
 	x := &xrun{c: c, free: free, testName: map[bool]string{false: "TestC09Controlled", true: "TestC09Free"}[free], cur: map[uint64]*XRec{}, inFl: map[string]int{}, created: map[int]string{}, deleted: map[int]int{},
 		gates: map[string]chan bool{}, inGet: map[string]int{}}
 	x.freeSlowDelete = free && c.SlowDelete
-	cache, err := lru.NewCache[string, int](c.Cap, x.create, x.onDelete)
+	var df lru.OnDeleteElemF[string, int]
+	if !c.NoCB {
+		df = x.onDelete
+	}
+	cache, err := lru.NewCache[string, int](c.Cap, x.create, df)
 	x.cache = cache
 	return x, err
 }
@@ -259,6 +264,9 @@ func (x *xrun) finish() *vstat.Violation {
 		return x.viol
 	}
 	for v, k := range x.created {
+		if x.c.NoCB {
+			break
+		}
 		switch x.deleted[v] {
 		case 1:
 		case 0:
@@ -267,7 +275,7 @@ func (x *xrun) finish() *vstat.Violation {
 			return vstat.V("lru:deleted-twice", "value #%d of key %q was deleted %d times", v, k, x.deleted[v])
 		}
 	}
-	return checkLRUHistory(x.c.Cap, x.hist)
+	return checkLRUHistory(x.c.Cap, x.hist, x.c.NoCB)
 }
 
 // ---- sequential specification (porcupine model): state = recency list, oldest first
@@ -326,8 +334,26 @@ func sameMultiset(a, b []kv) bool {
 	return true
 }
 
-func stepLRU(capacity int, st lruState, r XRec) (bool, lruState) {
+// stepLRU: with noCB the cache has no delete callback, so the ops report no evictions; the model then supplies them.
+func stepLRU(capacity int, st lruState, r XRec, noCB bool) (bool, lruState) {
 	l := decodeState(st)
+	if noCB && len(r.Deleted) == 0 {
+		// fill in what the model says this op evicts, so that the comparisons below hold trivially
+		idx := -1
+		for i, e := range l {
+			if e.K == r.Key {
+				idx = i
+			}
+		}
+		switch {
+		case r.Kind == "g" && idx < 0 && !r.Err && len(l)+1 > capacity && len(l) > 0:
+			r.Deleted = []kv{l[0]}
+		case r.Kind == "r" && idx >= 0:
+			r.Deleted = []kv{l[idx]}
+		case r.Kind == "c":
+			r.Deleted = append([]kv(nil), l...)
+		}
+	}
 	idx := -1
 	for i, e := range l {
 		if e.K == r.Key {
@@ -378,10 +404,12 @@ func stepLRU(capacity int, st lruState, r XRec) (bool, lruState) {
 	return false, st
 }
 
-func checkLRUHistory(capacity int, hist []XRec) *vstat.Violation {
+func checkLRUHistory(capacity int, hist []XRec, noCB bool) *vstat.Violation {
 	model := porcupine.Model{
-		Init:  func() interface{} { return lruState("") },
-		Step:  func(s, in, out interface{}) (bool, interface{}) { return stepLRU(capacity, s.(lruState), in.(XRec)) },
+		Init: func() interface{} { return lruState("") },
+		Step: func(s, in, out interface{}) (bool, interface{}) {
+			return stepLRU(capacity, s.(lruState), in.(XRec), noCB)
+		},
 		Equal: func(a, b interface{}) bool { return a.(lruState) == b.(lruState) },
 	}
 	ops := make([]porcupine.Operation, len(hist))
@@ -514,7 +542,7 @@ func runControlled(c XCase, info *XInfo, histOut *[]XRec) *vstat.Violation {
 		}
 		parked := len(x.gates)
 		_ = parked
-		if live > c.Cap {
+		if live > c.Cap && !c.NoCB {
 			return vstat.V("lru:over-capacity", "%d created values have not been deleted at a quiescent point, capacity is %d", live, c.Cap)
 		}
 		return nil
